@@ -621,6 +621,21 @@ def _all_paths_pass(b, chk_blocks, target):
     return True
 
 
+def _all_paths_pass_from(b, start, chk_blocks, target):
+    """no path from `start` to `target` avoids all of chk_blocks"""
+    seen, work = set(), [start]
+    avoid = set(chk_blocks)
+    while work:
+        x = work.pop()
+        if x in seen or (x in avoid and x != start):
+            continue
+        seen.add(x)
+        if x == target:
+            return False
+        work.extend(b.succs(x))
+    return True
+
+
 def _pexpr(pp):
     e = ("param", pp[0]) if isinstance(pp[0], int) else ("var", pp[0][1])
     for f_ in pp[1]:
@@ -666,6 +681,60 @@ def r_guard(f):
                             break
             checked_index = any(fn and fn["path"] in ("core::ops::Index::index", "core::ops::IndexMut::index_mut") for _, _, fn in b.calls()) or \
                 any(bl["term"] and bl["term"]["k"] == "assert" and bl["term"]["kind"] == "BoundsCheck" for bl in b.blocks)
+            # the index may be handed to crate helpers: the same discipline applies there, to the parameter that receives it
+            scan = [(b, 2)]
+            for hb_, hp_ in list(scan):
+                hd_ = Dfx(hb_)
+                for _, t_, fn_ in hb_.calls():
+                    cb_ = f.crate_fn_for_call(fn_) if fn_ else None
+                    if cb_ is None or cb_.kind == "Closure" or any(cb_ is x for x, _ in scan) or len(scan) > 4:
+                        continue
+                    for ai_, a_ in enumerate(t_["args"]):
+                        if a_["k"] in ("copy", "move") and strip(hd_.expr(a_)) == ("param", hp_):
+                            scan.append((cb_, ai_ + 1))
+            # the checked slice index may live in one of those helpers (the helper's callees included)
+            for hb_, _ in list(scan):
+                for hb2_ in [hb_] + [x for x in (f.crate_fn_for_call(fn_) for _, _, fn_ in hb_.calls() if fn_) if x is not None and x.kind != "Closure"]:
+                    if any(fn_ and fn_["path"] in ("core::ops::Index::index", "core::ops::IndexMut::index_mut") for _, _, fn_ in hb2_.calls()) or \
+                            any(bl["term"] and bl["term"]["k"] == "assert" and bl["term"]["kind"] == "BoundsCheck" for bl in hb2_.blocks):
+                        checked_index = True
+            for hb_, hp_ in scan:
+                hd_ = Dfx(hb_)
+                if hb_ is not b:
+                    for bi, si, st in hb_.stmts():
+                        if st["k"] == "assign" and st["rv"]["k"] == "binop" and re.match(r"^(Mul|Add|Shl)", st["rv"]["op"]):
+                            if any(x == ("param", hp_) for o in (st["rv"]["l"], st["rv"]["r"]) for x in walk(hd_.expr(o))) and bad is None:
+                                bad = (st["span"], st["rv"]["op"])
+                # an overflowing_* product of the index: the flag alone must send every overflowing call to a panic
+                for bi, t_, fn_ in hb_.calls():
+                    if not (fn_ and fn_["path"].startswith("core::num::") and fn_["name"].startswith("overflowing_")):
+                        continue
+                    if not any(x == ("param", hp_) for a_ in t_["args"] for x in walk(hd_.expr(a_))):
+                        continue
+                    gg_ = G(hb_, f)
+                    flag_blocks = []      # (switch block, successor taken when the flag is false)
+                    for sb, bl in enumerate(hb_.blocks):
+                        tt = bl["term"]
+                        if bl["cleanup"] or not tt or tt["k"] != "switch":
+                            continue
+                        e_ = strip(hd_.expr(tt["discr"]))
+                        neg_ = False
+                        while e_[0] == "un" and e_[1] == "Not":
+                            neg_ = not neg_; e_ = strip(e_[2])
+                        if e_[0] == "field" and e_[2] == 1 and strip(e_[1])[0] == "call" and strip(e_[1])[2] == fn_["name"]:
+                            tm_ = dict((int(a), b2) for a, b2 in tt["targets"])
+                            f_succ, t_succ = tm_.get(0, tt["otherwise"]), (tt["otherwise"] if 0 in tm_ else tm_.get(1))
+                            if neg_:
+                                f_succ, t_succ = t_succ, f_succ
+                            if t_succ is not None and gg_.diverges(t_succ):
+                                flag_blocks.append(sb)
+                    # every path from the product to a normal return passes one of those switches
+                    rets = [rb for rb, bl in enumerate(hb_.blocks) if bl["term"] and bl["term"]["k"] == "return" and not bl["cleanup"] and rb in hb_.reachable(bi)]
+                    leaks = [rb for rb in rets if not _all_paths_pass_from(hb_, bi, flag_blocks, rb)]
+                    okf = bool(flag_blocks) and not leaks
+                    RA.inst(b.ident, "the overflow flag of %s in %s sends every overflowing index to a panic before any return" % (fn_["name"], hb_.ident), okf)
+                    if not okf:
+                        RA.fail(b.ident, "idx:flag-not-decisive:%s" % fn_["name"], "%s: the overflow flag of %s(idx, ..) in %s does not by itself lead to a panic on every path (it is only tested together with another condition, or not at all): an index whose product wraps to an in-range position returns a wrong cell" % (b.ident, fn_["name"], hb_.ident), hb_.where(t_["span"]))
             RA.inst(b.ident, "idx only enters checked arithmetic and a checked slice index", bad is None and checked_index)
             if bad:
                 RA.fail(b.ident, "idx:%s" % bad[1].replace("WithOverflow", ""), "%s multiplies the caller's index with a plain `%s`: with overflow checks off a huge index wraps to an in-range position and a wrong cell is returned instead of a panic" % (b.ident, bad[1].replace("WithOverflow", "")), b.where(bad[0]))
